@@ -97,6 +97,11 @@ def cases(seed, tier):
             p = rng.choice(pausables)
             for occ in rng.choice([[0], [1], [0, 1], [0, 1, 2]]):
                 c["devices"][p].setdefault("faults", {})[f"pause#{occ}"] = {"kind": "raise", "exc": "NoReplayAllowed"}
+        # a motor whose stop() keeps failing (controller not answering): the engine logs it and carries on; the
+        # other devices are still stopped and the suspension still holds the plan
+        if pg.motors and rng.random() < 0.25:
+            mfail = rng.choice(pg.motors)
+            c["devices"][mfail].setdefault("faults", {})[f"stop#{rng.choice([0, 0, 1])}+"] = {"kind": "raise", "exc": "RuntimeError"}
         yield c
 
 
